@@ -697,6 +697,9 @@ func Run(r *rep.Report, tier string) {
 							continue
 						}
 						for _, ns := range [][2]int64{{1, 999}, {1, 1_000_000}, {500_000, 500_000}, {3, 2}} {
+							if ns[0] == ns[1] && j < i {
+								continue // same multiset as (j, i)
+							}
 							runCase(&kase{sh: p.sh, recs: []Rec{{hv[i], ns[0]}, {hv[j], ns[1]}}, rt: p.rt, aux: p.aux, sym: p.sym}, a)
 						}
 					}
